@@ -17,6 +17,11 @@
 //	uescape   \uXXXX escapes: boundary and random values, truncated forms
 //	text      random token sequences with random layout (valid UTF-8, mostly valid lexically)
 //	hostile   byte-level mutations of such texts (invalid UTF-8, control characters, truncation)
+//	lookalike non-ASCII look-alikes of every character class the scanner decides on (white space,
+//	          line terminators, BOM, comma, digits, letters, quotes, punctuators: what
+//	          unicode.IsSpace / strings.TrimSpace / unicode.IsDigit / unicode.IsLetter would accept
+//	          and the grammar does not) in every lexical context; block strings whose first, last
+//	          or inner lines, indentation or line ends consist of them
 //	api       the same kinds of inputs, plus an arbitrary sequence of API calls (Scan, Token,
 //	          Position, Literal, StringValue, Errors in any order, observers before the first
 //	          Scan, repeated observers, Scan after the end) on a fresh scanner whose source slice
@@ -342,7 +347,7 @@ func randomIndent(r *rng.R) string {
 	return sb.String()
 }
 
-var blockContents = []string{"", "", "a", "ab c", eAcc, `\"""`, `"`, `""`, `\`, `\\`, "x  y", "#", fffd, "\\n", "{}", "a\\\"\"\"b"}
+var blockContents = []string{"\u00a0", "\u2028", "\u3000 ", " \u0085", "", "", "a", "ab c", eAcc, `\"""`, `"`, `""`, `\`, `\\`, "x  y", "#", fffd, "\\n", "{}", "a\\\"\"\"b"}
 
 func randomBlock(r *rng.R) string {
 	var sb strings.Builder
@@ -419,7 +424,7 @@ func randomNumber(r *rng.R) string {
 	return sb.String()
 }
 
-var stringPieces = []string{"a", "b", " ", "x y", eAcc, fffd, "\xef\xbf\xbf", "\xe2\x80\xa8", bom, "#", ",", "{", "'", `\"`, `\\`, `\/`, `\b`, `\f`, `\n`, `\r`, `\t`,
+var stringPieces = []string{"\u00a0", "\u2028", "\u0085", "\u3000", "\uff11", "\u201c", "a", "b", " ", "x y", eAcc, fffd, "\xef\xbf\xbf", "\xe2\x80\xa8", bom, "#", ",", "{", "'", `\"`, `\\`, `\/`, `\b`, `\f`, `\n`, `\r`, `\t`,
 	`\u0041`, `\u00E9`, `\uFFFD`, `\uFFFF`, `\u0000`, `\ud800`, `\uDBFF\uDFFF`, `\u12AB`, "1", "e", "...", "\t"}
 var badStringPieces = []string{`\x`, `\u12`, `\uzzzz`, `\u 123`, "\n", "\r", "\x00", "\x1f", u1000, "\x80", `\`, "\x7f"}
 
@@ -440,7 +445,7 @@ func randomQuoted(r *rng.R, bad bool) string {
 	return sb.String()
 }
 
-var commentPieces = []string{"a", " ", "#", `"`, eAcc, fffd, bom, "\t", ",", "x y z", `\`, "\xef\xbf\xbf"}
+var commentPieces = []string{"\u00a0", "\u2028", "\u2029", "\u0085", "\u3000", "a", " ", "#", `"`, eAcc, fffd, bom, "\t", ",", "x y z", `\`, "\xef\xbf\xbf"}
 
 func randomComment(r *rng.R, bad bool) string {
 	var sb strings.Builder
@@ -483,7 +488,13 @@ func randomText(r *rng.R, bad bool) string {
 				sb.WriteString(rng.Pick(r, terms))
 			}
 		default:
-			if bad {
+			if bad && r.Chance(1, 3) {
+				if r.Bool() {
+					sb.WriteString(rng.Pick(r, spaceLike))
+				} else {
+					sb.WriteString(rng.Pick(r, otherLike))
+				}
+			} else if bad {
 				sb.WriteString(rng.Pick(r, []string{".", "..", "-", "+", "&", "%", "\x00", u1000, fffd, bom, eAcc, "\x80", "~", "?", "'", "\x0b"}))
 			} else {
 				sb.WriteString(rng.Pick(r, puncts))
@@ -524,6 +535,95 @@ func mutate(r *rng.R, s string) string {
 		}
 	}
 	return string(b)
+}
+
+// ---- look-alikes ----
+
+// everything unicode.IsSpace accepts beyond TAB LF CR SPACE, the BOM, and some characters that
+// merely look like space; U+000B and U+000C are not source characters, the others are
+var spaceLike = []string{"\x0b", "\x0c", "\u0085", "\u00a0", "\u1680", "\u2000", "\u2001", "\u2002", "\u2003", "\u2004", "\u2005", "\u2006",
+	"\u2007", "\u2008", "\u2009", "\u200a", "\u2028", "\u2029", "\u202f", "\u205f", "\u3000", bom, "\u200b", "\u180e", "\x1c", "\x1f"}
+
+// digits, letters, punctuation that Unicode-aware helpers would accept
+var otherLike = []string{"\u0661", "\uff11", "\u00b2", "\u2160", // digits / numerals
+	"\u00e9", "\u212a", "\u017f", "\uff21", "\u0430", "\uff3f", "\u203f", // letters (Kelvin sign, long s, fullwidth A, Cyrillic a), underscores
+	"\uff0c", "\u201a", "\u060c", // commas
+	"\u201c", "\u201d", "\uff02", "\u2033", // quotes
+	"\uff01", "\uff5b", "\uff5d", "\u2026", "\uff0e", "\u2212", "\uff0d", "\uff03", "\uff3c"} // ! { } ellipsis . minus - # backslash
+
+// every lexical context a look-alike can stand in
+func lookalikeContexts(w string) []string {
+	return []string{
+		w, w + w, "a" + w + "b", "a" + w, w + "a", "1" + w + "2", "1" + w, w + "1", "-" + w + "1", "1." + w + "5", "1.5" + w, "1e" + w + "5", "1e5" + w,
+		" " + w + " ", "a " + w + " b", "a," + w + ",b", "{" + w + "}", "..." + w, "." + w + "..", w + "...",
+		"a" + w + "\nb", "a\n" + w + "\nb c", "a" + w + "\r\nb", w + "\n" + w + "a",
+		"#c" + w + "d", "#c" + w + "d\ne", "#" + w + "\r" + w + "x", "#" + w,
+		`"x` + w + `y"`, `"x` + w + `y" z`, `"` + w + `"`, `"x` + w, `"\` + w + `"`, `"\u00` + w + `41"`, `"\u` + w + `0041"`,
+		`"""x` + w + `y"""`, `"""` + w + `"""`, `""` + w + `"`, `"` + w + `""`, `"""a\` + w + `"""`,
+		bom + w + "a", w + bom, "a" + w + ",", "," + w + ",",
+	}
+}
+
+// block strings with look-alikes where BlockStringValue looks at white space: on a first, last or
+// inner line of their own, as indentation, at line ends, next to real white space
+func hostileBlockFamily(w, t string) []string {
+	q := `"""`
+	return []string{
+		q + w + t + "a" + q,                         // first line only w
+		q + "a" + t + w + q,                         // last line only w
+		q + w + t + "a" + t + w + q,                 // both
+		q + t + w + t + "a" + t + w + t + q,         // w lines inside leading / trailing blank lines
+		q + " " + w + t + " a" + t + w + " " + q,    // w with real white space around it
+		q + w + " " + t + "  a" + t + "\t" + w + q,  // the other way round
+		q + "a" + t + w + t + "b" + q,               // inner line only w
+		q + "a" + t + "  b" + t + w + t + "  c" + q, // inner w line shorter than the common indent
+		q + "a" + t + "  b" + t + "  " + w + t + "  c" + q,
+		q + "a" + t + w + "b" + t + w + "c" + q,   // w as indentation
+		q + "a" + t + w + " b" + t + w + " c" + q, // w then space as indentation
+		q + "a" + t + " " + w + "b" + t + " " + w + "c" + q,
+		q + "a" + t + "  b" + t + " " + w + "c" + q, // w inside what would be the common indent
+		q + "a" + w + t + "b" + w + q,               // w at line ends
+		q + "a" + w + t + " " + q,                   // w before a blank last line
+		q + t + w + "a" + t + q,
+		q + w + q, q + w + w + q, q + " " + w + q, q + w + " " + q, q + t + w + q, q + w + t + q, q + w + t + w + q,
+		q + "a" + w + "b" + q, // w as a would-be line terminator
+		q + "  a" + w + "  b" + t + "  c" + q,
+		q + w + "  a" + t + "  b" + q,
+	}
+}
+
+func randomHostileBlock(r *rng.R) string {
+	var sb strings.Builder
+	sb.WriteString(`"""`)
+	ws := func() string {
+		switch r.Intn(4) {
+		case 0:
+			return rng.Pick(r, spaceLike)
+		case 1:
+			return rng.Pick(r, []string{" ", "\t", "  "})
+		case 2:
+			return rng.Pick(r, []string{" ", "\t"}) + rng.Pick(r, spaceLike)
+		default:
+			return ""
+		}
+	}
+	n := r.Range(1, 6)
+	for i := 0; i < n; i++ {
+		if i > 0 {
+			sb.WriteString(rng.Pick(r, terms))
+		}
+		sb.WriteString(ws())
+		if !r.Chance(1, 3) {
+			sb.WriteString(rng.Pick(r, []string{"a", "b c", eAcc, `\"""`, `"`, rng.Pick(r, spaceLike) + "x"}))
+			sb.WriteString(ws())
+		} else if r.Bool() {
+			sb.WriteString(ws())
+		}
+	}
+	if !r.Chance(1, 15) {
+		sb.WriteString(`"""`)
+	}
+	return sb.String()
 }
 
 func hex4(v int) string { return fmt.Sprintf("%04x", v) }
@@ -573,7 +673,10 @@ func main() {
 				if r.Bool() {
 					hx = strings.ToUpper(hx)
 				}
-				switch r.Intn(6) {
+				switch r.Intn(7) {
+				case 2: // a digit replaced by a look-alike digit / letter
+					k := r.Intn(4)
+					hx = hx[:k] + rng.Pick(r, []string{"\uff11", "\uff21", "\u0661", "\uff46", "\u00b2"}) + hx[k+1:]
 				case 0:
 					hx = hx[:r.Intn(4)]
 				case 1:
@@ -595,6 +698,24 @@ func main() {
 		}
 		for i := 0; i < pick(6000, 100000); i++ {
 			h.Case(func(r *rng.R) sexp.Node { return runCase(mutate(r, randomText(r, r.Chance(1, 4)))) })
+		}
+		// look-alikes of every character class, in every lexical context
+		for _, w := range append(append([]string{}, spaceLike...), otherLike...) {
+			for _, src := range lookalikeContexts(w) {
+				src := src
+				h.Case(func(r *rng.R) sexp.Node { return runCase(src) })
+			}
+		}
+		for _, w := range spaceLike {
+			for _, t := range terms {
+				for _, src := range hostileBlockFamily(w, t) {
+					src := src
+					h.Case(func(r *rng.R) sexp.Node { return runCase(src) })
+				}
+			}
+		}
+		for i := 0; i < pick(4000, 60000); i++ {
+			h.Case(func(r *rng.R) sexp.Node { return runCase(randomHostileBlock(r)) })
 		}
 		// API call sequences
 		for _, src := range regress {
